@@ -20,6 +20,7 @@
 #include "simk.h"
 #include "tls_peer.hpp"
 #include <iora/network/http_client.hpp>
+#include <iora/network/http_server.hpp>
 #include <iora/network/transport.hpp>
 #include <iora/network/transport_impl.hpp>
 
@@ -375,6 +376,73 @@ void httpClientSide()
     mc_violation("no-cleartext", "http-client:marker-in-clear", "request header bytes appear in clear text on the wire (" + name + ")");
   peer.stop();
 }
+
+// ---------------------------------------------------------------- HttpServer (TLS listener)  <->  independent client
+// HttpServer::enableTls maps its own TlsConfig (certFile/keyFile/caFile/requireClientCert) onto the transport's
+// serverTls block: the same oracle as the transport-level server, observed at the HTTP layer (was the handler invoked,
+// did a response come back).
+void httpServerSide()
+{
+  mc_label("main:http-server");
+  simk_cfg.tcpRcvBuf = 65536;
+  simk_cfg.shortIo = THOROUGH;
+  ServerCell c;
+  c.require = mc_choose(2, MC_FREE);
+  c.cli = mc_choose(3, MC_FREE);
+  c.ver = mc_choose(3, MC_FREE); // default, tls1.0, tls1.1 ceilings of the peer
+  std::ostringstream o;
+  o << "http-server require-client-cert=" << c.require << " client-cert=" << CLI[c.cli] << " peermax=" << VERN[c.ver];
+  std::string name = o.str();
+  auto *srv = new HttpServer("127.0.0.1", 9443);
+  HttpServer::TlsConfig tc;
+  tc.certFile = C("srv_ok.pem");
+  tc.keyFile = C("srv_ok.key");
+  if (c.require)
+  {
+    tc.caFile = C("ca_a.pem");
+    tc.requireClientCert = true;
+  }
+  srv->enableTls(tc);
+  bool handled = false;
+  srv->onGet("/x",
+             [&handled](const HttpServer::Request &, HttpServer::Response &res)
+             {
+               handled = true;
+               res.set_content(std::string("BODY-") + MARKER, "text/plain");
+             });
+  srv->start();
+  mc_quiesce();
+  tp::PeerConfig pc;
+  pc.server = false;
+  if (c.cli)
+  {
+    pc.cert = C((std::string(CLI[c.cli]) + ".pem").c_str());
+    pc.key = C((std::string(CLI[c.cli]) + ".key").c_str());
+  }
+  pc.maxVersion = VERS[c.ver];
+  pc.toSend = "GET /x HTTP/1.1\r\nHost: x\r\n\r\n";
+  tp::Peer peer(pc);
+  peer.start(9443);
+  peer.connectNow();
+  mc_quiesce(300ull * 1000000ull);
+  mc_quiesce(300ull * 1000000ull);
+  bool admitAllowed = !(c.ver == 1 || c.ver == 2) && (!c.require || c.cli == 1);
+  std::string why = (c.ver == 1 || c.ver == 2) ? std::string("peer-ceiling-") + VERN[c.ver] : std::string("client-cert-") + CLI[c.cli];
+  bool gotResponse = !peer.conns.empty() && peer.conns[0].appIn.find("HTTP/1.1 200") != std::string::npos;
+  int version = peer.conns.empty() ? 0 : peer.conns[0].version;
+  std::string wire = peer.conns.empty() ? "" : peer.conns[0].wire();
+  mc_obs("%s -> handled=%d response=%d version=%x admitAllowed=%d", name.c_str(), int(handled), int(gotResponse), version, int(admitAllowed));
+  if ((handled || gotResponse) && !admitAllowed)
+    mc_violation((c.ver == 1 || c.ver == 2) ? "tls12-floor" : "server-auth", "http-server:request-admitted-despite:" + why,
+                 "the HTTP handler ran / a response was sent although the client must not be admitted: " + why + " (" + name + ")");
+  if (wire.find(MARKER) != std::string::npos)
+    mc_violation("no-cleartext", "http-server:marker-in-clear", "response bytes appear in clear text on the wire (" + name + ")");
+  if ((handled || gotResponse) && version && version < TLS1_2_VERSION)
+    mc_violation("tls12-floor", "http-server:negotiated-below-tls12", "negotiated version 0x" + std::to_string(version) + " (" + name + ")");
+  peer.stop();
+  srv->stop();
+  delete srv;
+}
 } // namespace
 
 int main(int argc, char **argv)
@@ -434,6 +502,19 @@ int main(int argc, char **argv)
     m.thorough.E = 1;
     m.thorough.P = 1;
     m.thorough.total = 1; // one deviation (preemption or short I/O) per cell
+    m.horizon_s = 60;
+    m.weight = 2;
+    v.push_back(m);
+  }
+  {
+    McScenario m;
+    m.name = "http_server";
+    m.body = []() { httpServerSide(); };
+    m.quick.S = 0;
+    m.thorough.S = 0;
+    m.thorough.E = 1;
+    m.thorough.P = 1;
+    m.thorough.total = 1;
     m.horizon_s = 60;
     m.weight = 2;
     v.push_back(m);
